@@ -180,14 +180,14 @@ Proof. destruct st; try discriminate. destruct st; try discriminate; reflexivity
 
 Lemma node_eq_stmts y x : st_ok y = true -> st_ok x = true -> node_eq y x = (pos_of y =? pos_of x).
 Proof.
-  destruct y as [| | | | | | | | | | | | |py cy| | | | | | | |]; try discriminate.
-  destruct x as [| | | | | | | | | | | | |px cx| | | | | | | |]; try discriminate.
+  destruct y as [| | | | | | | | | | | | |py cy| | | | | | | | |]; try discriminate.
+  destruct x as [| | | | | | | | | | | | |px cx| | | | | | | | |]; try discriminate.
   intros _ _. reflexivity.
 Qed.
 
 Lemma node_eq_code_jz st p c a : st_ok st = true -> not_jz_at p st = true -> node_eq (code_of st) (Jz p c a) = false.
 Proof.
-  destruct st as [| | | | | | | | | | | | |q code| | | | | | | |]; try discriminate.
+  destruct st as [| | | | | | | | | | | | |q code| | | | | | | | |]; try discriminate.
   destruct code; try discriminate; intros _ H; try reflexivity.
   cbn [not_jz_at] in H. cbn [code_of]. unfold node_eq. cbn [pos_of]. apply negb_true_iff in H. rewrite H. apply andb_false_r.
 Qed.
@@ -255,7 +255,7 @@ Qed.
 
 Lemma within_not_jz lo hi p st : within lo hi st -> p < lo \/ hi <= p -> not_jz_at p st = true.
 Proof.
-  intros (Hok & Hpos & Hq & _) Hp. destruct st as [| | | | | | | | | | | | |q code| | | | | | | |]; try reflexivity.
+  intros (Hok & Hpos & Hq & _) Hp. destruct st as [| | | | | | | | | | | | |q code| | | | | | | | |]; try reflexivity.
   destruct code; try reflexivity. cbn [not_jz_at pos_of jz_pos] in *. subst. apply negb_true_iff. apply Z.eqb_neq. lia.
 Qed.
 
@@ -757,7 +757,7 @@ Section Level.
 
   Lemma before_not_jz lo p st : before_ok lo st -> lo <= p -> not_jz_at p st = true.
   Proof.
-    intros (Hok & Hpos & Hq) Hp. destruct st as [| | | | | | | | | | | | |q code| | | | | | | |]; try reflexivity.
+    intros (Hok & Hpos & Hq) Hp. destruct st as [| | | | | | | | | | | | |q code| | | | | | | | |]; try reflexivity.
     destruct code; try reflexivity. cbn [not_jz_at pos_of jz_pos] in *. subst. apply negb_true_iff. apply Z.eqb_neq. lia.
   Qed.
 
